@@ -541,6 +541,9 @@ func (x *xl) loopVars(nodes []ast.Node, before token.Pos, extraOutside map[types
 					switch l2 := l.(type) {
 					case *ast.IndexExpr:
 						mark(l2.X)
+						if s3, ok := l2.X.(*ast.SelectorExpr); ok {
+							mark(s3.X) // c.children[k] = v
+						}
 					case *ast.SelectorExpr:
 						mark(l2.X)
 					case *ast.StarExpr:
@@ -984,6 +987,9 @@ func (x *xl) impure2(n ast.Node) bool {
 }
 
 func (w *xlWorld) translateFunc(repo string, p *xlPkg, f *xlFunc, fd *ast.FuncDecl) (string, error) {
+	if f.Dispatch != "" {
+		return w.translateDispatch(p, f)
+	}
 	fn := p.info.Defs[fd.Name].(*types.Func)
 	sig := fn.Type().(*types.Signature)
 	domMode := w.dom && f.External == ""
@@ -1041,6 +1047,9 @@ func (w *xlWorld) translateFunc(repo string, p *xlPkg, f *xlFunc, fd *ast.FuncDe
 			x.recv = r
 		} else if err := addParam(r); err != nil {
 			return "", err
+		} else {
+			// `$0` in fuel expressions = the (non-flattened) receiver
+			x.goParamNames, x.leanParamNames = []string{"$0", r.Name()}, []string{"$0", params[0].name}
 		}
 	}
 	for i := 0; i < sig.Params().Len(); i++ {
@@ -1082,6 +1091,9 @@ func (w *xlWorld) translateFunc(repo string, p *xlPkg, f *xlFunc, fd *ast.FuncDe
 			if r.f.RecGroup == f.RecGroup && (f.RecGroup != "" || g == fn) {
 				x.inGroup[g] = true
 				x.used[r.param] = true
+				if r.isDisp {
+					x.dispatch[r.f.Name] = r.param
+				}
 			}
 		}
 		// deterministic order: whitelist order = registration order is not kept in a map, so sort by name
@@ -1202,6 +1214,9 @@ func (w *xlWorld) translateFunc(repo string, p *xlPkg, f *xlFunc, fd *ast.FuncDe
 // substParams: `$1`, `$2`, … in a whitelist fuel expression stand for the function's parameters by
 // position, so that renaming a parameter or a local variable does not invalidate the whitelist
 func substParams(s string, names []string) string {
+	if len(names) >= 2 && names[0] == "$0" {
+		s, names = strings.ReplaceAll(s, "$0", names[1]), names[2:]
+	}
 	for i := len(names); i >= 1; i-- {
 		s = strings.ReplaceAll(s, fmt.Sprintf("$%d", i), names[i-1])
 	}
